@@ -875,9 +875,9 @@ Proof.
         + destruct Hor as [->|(He & Hc)]; [left; reflexivity|].
           right. exists (req, comp). split; [left; reflexivity|]. split; [exact He|exact Hc].
         + right. exists row. split; [right; exact Hin|]. auto. }
+    destruct (negb (Nat.eqb (length pres) (length req))); [discriminate|].
     destruct (nth_error req k) as [[|]|] eqn:En; [| |discriminate].
-    + destruct (negb (Nat.eqb (length pres) (length req))); [discriminate|].
-      destruct (Qle_bool comp best) eqn:El.
+    + destruct (Qle_bool comp best) eqn:El.
       * apply Qle_bool_iff in El. apply (Hskip best H); [apply Qle_refl|intros _; exact El|left; reflexivity].
       * assert (Hlt : (best < comp)%Q).
         { apply Qnot_le_lt. intros C. apply Qle_bool_iff in C. congruence. }
@@ -899,17 +899,88 @@ Theorem competency_partial rows pres k q :
   (q = 0%Q \/ exists row, In row rows /\ eligible pres k row /\ snd row = q).
 Proof. apply find_competency_gen. Qed.
 
-(* it fails only on malformed tables *)
-Theorem competency_partial_ok rows pres k best :
-  Forall (fun row => length (fst row) = length pres) rows -> (k < length pres)%nat ->
+(* a successful lookup has checked the width of every row, and (on a
+   non-empty table) that the host index is within the rows *)
+Definition width_ok (pres : list bool) (row : list bool * Q) : Prop := length (fst row) = length pres.
+
+Theorem competency_partial_widths rows pres k best q :
+  find_competency rows pres k best = Ok q ->
+  Forall (width_ok pres) rows /\ (rows <> [] -> (k < length pres)%nat).
+Proof.
+  revert best. induction rows as [|[req comp] r IH]; intros best H; cbn [find_competency] in H.
+  - split; [constructor|]. intros C. contradiction C. reflexivity.
+  - destruct (Nat.eqb_spec (length pres) (length req)) as [El|]; [|discriminate]. cbn [negb] in H.
+    assert (Hk : (k < length pres)%nat).
+    { rewrite El. apply nth_error_Some. intros C. rewrite C in H. discriminate. }
+    assert (Hr : exists b', find_competency r pres k b' = Ok q).
+    { destruct (nth_error req k) as [[|]|]; [|eauto|discriminate].
+      destruct (Qle_bool comp best); [eauto|]. destruct (row_subset req pres); eauto. }
+    destruct Hr as (b' & Hr). split; [|intros _; exact Hk].
+    constructor; [unfold width_ok; cbn [fst]; congruence|exact (proj1 (IH _ Hr))].
+Qed.
+
+(* it fails only on malformed tables: never out of bounds (nor any other
+   error) when every row has one entry per host and k is a host index *)
+Theorem competency_partial_no_ub rows pres k best :
+  Forall (fun r => length (fst r) = length pres) rows -> (k < length pres)%nat ->
   exists q, find_competency rows pres k best = Ok q.
 Proof.
   intros Hr Hk. revert best. induction Hr as [|[req comp] r Hl _ IH]; intros best; cbn [find_competency]; [eauto|].
-  cbn [fst] in Hl. destruct (nth_error req k) as [[|]|] eqn:En.
-  - rewrite Hl, Nat.eqb_refl. cbn [negb]. destruct (Qle_bool comp best); [apply IH|].
-    destruct (row_subset req pres); apply IH.
+  cbn [fst] in Hl. rewrite Hl, Nat.eqb_refl. cbn [negb].
+  destruct (nth_error req k) as [[|]|] eqn:En.
+  - destruct (Qle_bool comp best); [apply IH|]. destruct (row_subset req pres); apply IH.
   - apply IH.
   - apply nth_error_None in En. lia.
+Qed.
+
+Theorem competency_partial_ok rows pres k best :
+  Forall (fun row => length (fst row) = length pres) rows -> (k < length pres)%nat ->
+  exists q, find_competency rows pres k best = Ok q.
+Proof. apply competency_partial_no_ub. Qed.
+
+(* the first row of the wrong width is rejected with invalid_argument before it
+   is indexed.
+   CHANGED: "independent of k" holds when the malformed row is the first one;
+   behind well-formed rows it needs k to be a host index, because those rows
+   are indexed first (k >= length pres is then Err UB_OutOfBounds at the
+   first row: competency_partial_index_rejected).  Whatever k is, the lookup
+   never succeeds (competency_partial_width_never_ok). *)
+Theorem competency_partial_width_rejected pre req comp post pres k best :
+  Forall (fun r => length (fst r) = length pres) pre -> length req <> length pres ->
+  (pre = [] \/ (k < length pres)%nat) ->
+  find_competency (pre ++ (req, comp) :: post) pres k best = Err InvalidArgument.
+Proof.
+  intros Hpre Hne Hk. revert best.
+  induction Hpre as [|[req0 comp0] r Hl _ IH]; intros best; cbn [app find_competency].
+  - destruct (Nat.eqb_spec (length pres) (length req)) as [E|_]; [congruence|reflexivity].
+  - destruct Hk as [Hk|Hk]; [discriminate Hk|]. specialize (IH (or_intror Hk)).
+    cbn [fst] in Hl. rewrite Hl, Nat.eqb_refl. cbn [negb].
+    destruct (nth_error req0 k) as [[|]|] eqn:En.
+    + destruct (Qle_bool comp0 best); [apply IH|]. destruct (row_subset req0 pres); apply IH.
+    + apply IH.
+    + apply nth_error_None in En. lia.
+Qed.
+
+Corollary competency_partial_first_width_rejected req comp post pres k best :
+  length req <> length pres ->
+  find_competency ((req, comp) :: post) pres k best = Err InvalidArgument.
+Proof.
+  intros Hne. apply (competency_partial_width_rejected [] req comp post pres k best); [constructor|exact Hne|left; reflexivity].
+Qed.
+
+Theorem competency_partial_index_rejected req comp post pres k best :
+  length req = length pres -> (length pres <= k)%nat ->
+  find_competency ((req, comp) :: post) pres k best = Err UB_OutOfBounds.
+Proof.
+  intros Hl Hk. cbn [find_competency]. rewrite Hl, Nat.eqb_refl. cbn [negb].
+  assert (En : nth_error req k = None) by (apply nth_error_None; lia). rewrite En. reflexivity.
+Qed.
+
+Corollary competency_partial_width_never_ok rows pres k best row :
+  In row rows -> length (fst row) <> length pres -> forall q, find_competency rows pres k best <> Ok q.
+Proof.
+  intros Hin Hne q H. apply competency_partial_widths in H as (Hw & _).
+  rewrite Forall_forall in Hw. exact (Hne (Hw _ Hin)).
 Qed.
 
 
@@ -987,5 +1058,10 @@ Print Assumptions competency_complete_err.
 Print Assumptions competency_complete_out_of_range.
 Print Assumptions competency_partial.
 Print Assumptions competency_partial_ok.
+Print Assumptions competency_partial_no_ub.
+Print Assumptions competency_partial_widths.
+Print Assumptions competency_partial_width_rejected.
+Print Assumptions competency_partial_index_rejected.
+Print Assumptions competency_partial_width_never_ok.
 Print Assumptions susceptibility_scales.
 Print Assumptions susceptibility_zero.
